@@ -35,8 +35,12 @@ WHAT IS PROVED HERE.
   that a Mathlib-free file — the driver — gets (checked with `pp.explicit`); the `AddCommGroup (V3 Int)` instance
   declared here is built from them and does not shadow them.
 * C09 needs none of this: its theorems are stated with the bare operation classes and apply verbatim at `M3 Int`.
-NOT DONE: the interface model (Model/Iface.lean, Props/C07, driver family `iface`) has no `…_mapG` lemmas yet; its
-group-dependent theorems (C07 `method_forms_coincide` …) are still only over an abstract group.
+* the interface models (Model/Iface.lean: input formatting, `getBtop`, the three method forms; Model/DictIface.lean:
+  `getBH_dict_level2`) are treated in Lemmas/OctaIface.lean in the same way (`getBtop_mapG`, `srcMethod_mapG`,
+  `sensMethod_mapG`, `collMethod_mapG`, `formatSrc_mapG`, `formatObs_mapG`, `call_mapG`, lifting of call inputs),
+  with the corollaries in Props/C07.
+* C05 `collection_is_sum_of_children_on_M3Int` (from `specValueOp_coll_M3Int` here) holds for ARBITRARY integer
+  matrices: only additivity of `M3.apply` is used.
 
 WHAT REMAINS ASSUMED AFTER THIS (and is not a theorem anywhere):
 1. that scipy's `Rotation`, restricted to the 24 octahedral rotations, composes (`*`), inverts (`inv`),
@@ -439,6 +443,35 @@ theorem tensor_eq_spec_on_driver_carrier (flipX : V3 Int → V3 Int) (entries : 
     exact (Entry.mapG_leaves_ne_nil Oct.toM3 e).mp (he _ (List.mem_map_of_mem h))
   · intro k h
     exact (Sens.mapG_WF Oct.toM3 k).mp (hs _ (List.mem_map_of_mem h))
+
+/-! #### C05 for ARBITRARY integer matrices: only additivity of `M3.apply` is used -/
+
+theorem sensTOp_add_M3Int (flipX : V3 Int → V3 Int) (hf : ∀ a b, flipX (a + b) = flipX a + flipX b)
+    (k : SensZ) (m : Nat) (a b : V3 Int) :
+    sensTOp flipX k m (a + b) = sensTOp flipX k m a + sensTOp flipX k m b := by
+  unfold sensTOp
+  cases clampGet k.ori m <;> by_cases hl : k.left = true <;> simp [hl, hf, M3.smul_add']
+
+theorem sensTOp_zero_M3Int (flipX : V3 Int → V3 Int) (h0 : flipX 0 = 0) (k : SensZ) (m : Nat) :
+    sensTOp flipX k m 0 = 0 := by
+  unfold sensTOp
+  cases clampGet k.ori m <;> by_cases hl : k.left = true <;> simp [hl, h0, M3.smul_zero']
+
+theorem sensTOp_sum_M3Int (flipX : V3 Int → V3 Int) (hf : ∀ a b, flipX (a + b) = flipX a + flipX b)
+    (h0 : flipX 0 = 0) (k : SensZ) (m : Nat) (l : List (V3 Int)) :
+    sensTOp flipX k m l.sum = (l.map (sensTOp flipX k m)).sum := by
+  induction l with
+  | nil => simpa using sensTOp_zero_M3Int flipX h0 k m
+  | cons a l ih => simp only [List.sum_cons, List.map_cons, sensTOp_add_M3Int flipX hf, ih]
+
+/-- `specValue_coll` (C05) at `M3 Int` for arbitrary integer matrices (no orthogonality, no determinant condition) -/
+theorem specValueOp_coll_M3Int (flipX : V3 Int → V3 Int) (hf : ∀ a b, flipX (a + b) = flipX a + flipX b)
+    (h0 : flipX 0 = 0) (cs : List EntryZ) (k : SensZ) (m : Nat) (x : V3 Int) :
+    specValueOp flipX (.coll cs) k m x = (cs.map fun c => specValueOp flipX c k m x).sum := by
+  unfold specValueOp
+  simp only [Entry.leaves]
+  rw [sum_flatten_map, sensTOp_sum_M3Int flipX hf h0, List.map_map, List.map_map]
+  rfl
 
 /-! #### driver-style data for the non-vacuity examples of Props/C03–C06 -/
 namespace DriverExample
